@@ -105,37 +105,38 @@ PROPS["C04"]["assumptions"] = PROPS["C04"]["assumptions"] + K_ASSUME
 PROPS["C06"]["assumptions"] = PROPS["C06"]["assumptions"] + K_ASSUME
 PROPS.update({
     "C09": dict(
-        k_harnesses=True, level="other",
-        explanation="Kani/CBMC harnesses on the real distance functions. Decided: SO(2): 0 <= d <= PI never NaN, d(a,a) == 0, (thorough) d equals the short arc within 2e-15 — complete over all canonical angles; SO(3): 0 <= d <= PI for all component values in [-1,1], NaN-or-in-range for all non-NaN values, (thorough) symmetric and q / -q equal bit for bit; RealVector: non-negative, symmetric bit for bit, d(a,a) == 0, equals sqrt(sum of squares) left to right — BOUNDED to dimension 2; compound / SE(2): weighted-L2 law bit for bit for the layout R^1 x SO(2) — BOUNDED in layout. Also audits every EXACT f64 axiom the Verus units use (complete over all bit patterns). Partial: level `other`.",
+        k_harnesses=True, v_units=["compound_space"], level="other",
+        explanation="Verus unit V-compound: the compound / SE(2) / SE(3) distance is sqrt(sum (d_i w_i)^2) over ALL components for every layout and weight vector, through the (verified) type-erased dispatch: agreement with the independently stated reference `sq_sum`. Kani/CBMC harnesses on the real distance functions. Decided: SO(2): 0 <= d <= PI never NaN, d(a,a) == 0, (thorough) d equals the short arc within 2e-15 — complete over all canonical angles; SO(3): 0 <= d <= PI for all component values in [-1,1], NaN-or-in-range for all non-NaN values, (thorough) symmetric and q / -q equal bit for bit; RealVector: non-negative, symmetric bit for bit, d(a,a) == 0, equals sqrt(sum of squares) left to right — BOUNDED to dimension 2; compound / SE(2): weighted-L2 law bit for bit for the layout R^1 x SO(2) — BOUNDED in layout. Also audits every EXACT f64 axiom the Verus units use (complete over all bit patterns). Partial: level `other`.",
         assumptions=K_ASSUME,
         not_covered=["triangle inequality on every space", "SO(2) symmetry d(a,b) == d(b,a) up to tolerance and seam equivalence (two chained float evaluations did not finish)", "RealVector beyond dimension 2, compound layouts beyond R^1 x SO(2), SE(3)", "agreement with an independent reference beyond the stated spec functions"],
     ),
     "C10": dict(
-        k_harnesses=True, level="other",
-        explanation="Kani/CBMC harnesses on the real interpolate functions. Decided: SO(2): the result is canonical (in [-PI,PI]) for all canonical a, b and t in [0,1]; (thorough) returns a at t = 0 up to 1e-15 mod 2 PI; RealVector (BOUNDED dimension 2): interpolate computes a_i + (b_i - a_i) * t bit for bit, and the scalar law (complete): equals a at t = 0 and lies between a and the t = 1 value a + (b - a) for every t in [0,1]; compound: acts component by component (BOUNDED layout). `returns b exactly at t = 1` is false for f64 (a + (b - a) != b for many pairs): this is the reason check_motion validates `to` itself (C01).",
-        assumptions=K_ASSUME,
+        k_harnesses=True, v_units=["rv_space"], level="other",
+        explanation="Verus unit V-rvspace on the real RealVectorStateSpace::interpolate for EVERY dimension: every output coordinate is from_i + (to_i - from_i) * t evaluated exactly so (all coordinates written, lengths preserved, no assert_eq! / index panic for states of the space's dimension). Kani/CBMC harnesses on the real interpolate functions. Decided: SO(2): the result is canonical (in [-PI,PI]) for all canonical a, b and t in [0,1]; (thorough) returns a at t = 0 up to 1e-15 mod 2 PI; RealVector (BOUNDED dimension 2): interpolate computes a_i + (b_i - a_i) * t bit for bit, and the scalar law (complete): equals a at t = 0 and lies between a and the t = 1 value a + (b - a) for every t in [0,1]; compound: acts component by component (BOUNDED layout). `returns b exactly at t = 1` is false for f64 (a + (b - a) != b for many pairs): this is the reason check_motion validates `to` itself (C01).",
+        assumptions=K_ASSUME + ["V-rvspace (Verus, every dimension): RealVectorStateSpace::distance / get_maximum_extent / enforce_bounds / get_longest_valid_segment_length are external_body (iterator adapters); struct RealVectorState is unit text; unit rules: assert_eq! -> precondition-checked call, RV1 vec![x; n] -> vec_repeat, RV2 rng.random_range(lo..hi) -> rng_random_range_f64 (contract lo <= v < hi, precondition lo < hi and hi - lo finite = rand's panic conditions), RV3 a type annotation, RV4 the private field longest_valid_segment_fraction made pub (visibility only), R20 f64::EPSILON / NEG_INFINITY as named constants; EXACT axioms ax_eps_pos, ax_sub_pos_le, ax_add_pos_ge, ax_lt_not_nan, ax_gt_asym, ax_le_not_gt, ax_neg_inf_lt_inf audited by the Layer-0 harnesses ax_eps_pos / ax_sub_add_pos / ax_order_misc; f64 +, -, * are uninterpreted deterministic functions (laws are equalities of the same expression)"],
         not_covered=["constant speed d(a, interp(a,b,t)) == t d(a,b) on every space", "SO(3) SLERP / NLERP: unit norm of the result, switch continuity, end points", "SO(2) interp(b,a,1-t) == interp(a,b,t)"],
     ),
     "C11": dict(
-        k_harnesses=True, level="proof",
-        explanation="Kani/CBMC harnesses on the real enforce_bounds / satisfies_bounds. SO(2) — complete over all well-formed bounds and all states in the rem_euclid model domain: after enforce the check accepts the state, the value is numerically inside [lo,hi], a second enforce is the identity bit for bit, a canonical satisfying state is left unchanged, and any value in [lo,hi) (random_range contract) satisfies the bounds. RealVector — BOUNDED to dimension 2: same clauses (enforce never panics on a constructible box). Compound (R^1 x SO(2)): component-wise and enforced ==> accepted (bounded layout).",
-        assumptions=K_ASSUME,
+        k_harnesses=True, v_units=["rv_space"], level="proof",
+        explanation="Verus unit V-rvspace on the real RealVectorStateSpace for EVERY dimension and every constructible (wf) space: satisfies_bounds accepts exactly the states whose every coordinate passes the EPSILON-widened interval test (no coordinate skipped); sample_uniform returns Ok only with one coordinate per dimension, each in [lower, upper), and every such state satisfies the bounds (lemma from a - e <= a <= a + e); the sampler's random_range call cannot panic (lo < hi and hi - lo finite are established by the guards) and the only errors are the documented ones. Kani/CBMC harnesses on the real enforce_bounds / satisfies_bounds. SO(2) — complete over all well-formed bounds and all states in the rem_euclid model domain: after enforce the check accepts the state, the value is numerically inside [lo,hi], a second enforce is the identity bit for bit, a canonical satisfying state is left unchanged, and any value in [lo,hi) (random_range contract) satisfies the bounds. RealVector — BOUNDED to dimension 2: same clauses (enforce never panics on a constructible box). Compound (R^1 x SO(2)): component-wise and enforced ==> accepted (bounded layout).",
+        assumptions=K_ASSUME + ["V-rvspace (Verus, every dimension): RealVectorStateSpace::distance / get_maximum_extent / enforce_bounds / get_longest_valid_segment_length are external_body (iterator adapters); struct RealVectorState is unit text; unit rules: assert_eq! -> precondition-checked call, RV1 vec![x; n] -> vec_repeat, RV2 rng.random_range(lo..hi) -> rng_random_range_f64 (contract lo <= v < hi, precondition lo < hi and hi - lo finite = rand's panic conditions), RV3 a type annotation, RV4 the private field longest_valid_segment_fraction made pub (visibility only), R20 f64::EPSILON / NEG_INFINITY as named constants; EXACT axioms ax_eps_pos, ax_sub_pos_le, ax_add_pos_ge, ax_lt_not_nan, ax_gt_asym, ax_le_not_gt, ax_neg_inf_lt_inf audited by the Layer-0 harnesses ax_eps_pos / ax_sub_add_pos / ax_order_misc; f64 +, -, * are uninterpreted deterministic functions (laws are equalities of the same expression)"],
         not_covered=["SO(3) enforce_bounds / satisfies_bounds / sample_uniform (acos / sin reasoning; the rejection loop is unbounded)", "sample_uniform is not executed under CBMC: its guards and rand's contract are used instead"],
     ),
     "C12": dict(
-        k_harnesses=True, level="proof",
-        explanation="Kani/CBMC function contract on the real SO2StateSpace::new (complete over all Option<(f64,f64)>): Ok <==> both the given and the clamped interval are non-empty (NaN rejected), stored bounds satisfy -PI <= lo < hi <= PI, the error is InvalidBound; every returned space has a non-empty finite range and its bounds operations do not panic. SO3StateSpace::new (complete): Ok ==> 0 <= radius <= PI never NaN, Err <==> radius < 0. RealVectorStateSpace::new: BOUNDED (dimension 1 quick, <= 2 thorough). SO2State::new / normalise / SE2State::new: result in [-PI,PI] for all finite angles (range model) and congruent mod 2 PI (thorough, exact model domain). SO3State::normalise: Err(ZeroMagnitude) <==> norm < 1e-9, otherwise every component divided by the norm.",
-        assumptions=K_ASSUME,
+        k_harnesses=True, v_units=["rv_space"], level="proof",
+        explanation="Verus unit V-rvspace on the real RealVectorStateSpace::new for EVERY dimension: Ok ==> bounds.len() == dimension and every lower < upper (so no NaN), given bounds are stored unchanged, absent bounds become (-inf, +inf) per dimension; wrong length ==> Err, any pair with !(lower < upper) (incl. NaN) ==> Err, dimension 0 without bounds ==> Err. Kani/CBMC function contract on the real SO2StateSpace::new (complete over all Option<(f64,f64)>): Ok <==> both the given and the clamped interval are non-empty (NaN rejected), stored bounds satisfy -PI <= lo < hi <= PI, the error is InvalidBound; every returned space has a non-empty finite range and its bounds operations do not panic. SO3StateSpace::new (complete): Ok ==> 0 <= radius <= PI never NaN, Err <==> radius < 0. RealVectorStateSpace::new: BOUNDED (dimension 1 quick, <= 2 thorough). SO2State::new / normalise / SE2State::new: result in [-PI,PI] for all finite angles (range model) and congruent mod 2 PI (thorough, exact model domain). SO3State::normalise: Err(ZeroMagnitude) <==> norm < 1e-9, otherwise every component divided by the norm.",
+        assumptions=K_ASSUME + ["V-rvspace (Verus, every dimension): RealVectorStateSpace::distance / get_maximum_extent / enforce_bounds / get_longest_valid_segment_length are external_body (iterator adapters); struct RealVectorState is unit text; unit rules: assert_eq! -> precondition-checked call, RV1 vec![x; n] -> vec_repeat, RV2 rng.random_range(lo..hi) -> rng_random_range_f64 (contract lo <= v < hi, precondition lo < hi and hi - lo finite = rand's panic conditions), RV3 a type annotation, RV4 the private field longest_valid_segment_fraction made pub (visibility only), R20 f64::EPSILON / NEG_INFINITY as named constants; EXACT axioms ax_eps_pos, ax_sub_pos_le, ax_add_pos_ge, ax_lt_not_nan, ax_gt_asym, ax_le_not_gt, ax_neg_inf_lt_inf audited by the Layer-0 harnesses ax_eps_pos / ax_sub_add_pos / ax_order_misc; f64 +, -, * are uninterpreted deterministic functions (laws are equalities of the same expression)"],
         not_covered=["SE(3) and compound constructors", "unit norm of the normalised quaternion up to tolerance (needs an error bound on sqrt)"],
     ),
     "C13": dict(
         k_harnesses=True, v_units=["compound_space"], level="proof",
-        explanation="Verus unit V-compound on the real CompoundStateSpace (new, distance, interpolate, enforce_bounds, satisfies_bounds, get_longest_valid_segment_length) for EVERY layout (any number and kind of components, any weights), against the contract of the type-erased component interface AnyStateSpace (distance_dyn ... return the component space's own result; a call requires a state of the component's type): distance == sqrt(sq_sum) where sq_sum is the left-to-right sum of (d_i * w_i)^2 over all components (spec fn `sq_sum`, float operations uninterpreted but the SAME operations), resolution == the same combination of the component resolutions, satisfies_bounds == conjunction of all component checks, interpolate / enforce_bounds relate EVERY output component to the component space's result and touch nothing else, every index is in range and every per-component call gets a state of the right type (no downcast panic) provided the state has the layout of the space. Plus Kani/CBMC on the real CompoundStateSpace / SE2StateSpace through real Box<dyn AnyStateSpace> dispatch and Any downcasts, for the layout R^1 x SO(2) with symbolic weights, bounds and states: distance == sqrt(0 + sum (d_i w_i)^2) bit for bit, the resolution is the same weighted combination, interpolate / satisfies_bounds / enforce_bounds act component by component (each component equals the component space's own result bit for bit), downcasts never fail; SE(2) equals the compound of R^2 and SO(2) with weights (1, w). BOUNDED in layout: level `other`.",
-        assumptions=K_ASSUME + ["V-compound: the contract of AnyStateSpace (verus/prelude/spaces.rs): each *_dyn method returns the component space's own result and requires a state of the component's type (the blanket impl with its Any downcasts is exercised by the Kani harnesses on concrete layouts, not by Verus)",
+        explanation="Verus unit V-compound on the real compound_state_space.rs, any_state_space.rs (blanket impl), se2_state_space.rs and se3_state_space.rs, for EVERY layout (any number and kind of components, any weights). CompoundStateSpace: distance == sqrt(sq_sum) where sq_sum is the left-to-right sum of (d_i * w_i)^2 over all components (spec fn `sq_sum`; float operations uninterpreted but the SAME operations, hence bit for bit), resolution == the same combination of the component resolutions, satisfies_bounds == conjunction of all component checks, interpolate / enforce_bounds relate EVERY output component to the component space's own result, sample_uniform draws every component from its own space in order; every index is in range and every per-component call receives a state of the component's type (no assert_eq! / downcast panic) provided the state has the layout of the space. Blanket impl of AnyStateSpace: each *_dyn method IS the concrete space's method on the downcast states (arguments in the same order) and the downcasts cannot fail for accepted states. SE2StateSpace / SE3StateSpace: every StateSpace method equals the inner compound space's method on the inner compound state, and `new` builds the compound [translation R^2 / R^3 from bounds[0..2] / [0..3], rotation SO(2) from bounds[2] / unbounded SO(3)] in this order with weights exactly [1, w] (Err when bounds.len() != 3). Plus Kani/CBMC harnesses that execute the real dyn dispatch / Any downcasts on concrete layouts: (bounded layouts, see coverage) component-wise bit-for-bit agreement with the real component spaces.",
+        assumptions=K_ASSUME + ["V-compound: prelude spaces.rs replaces the DECLARATION of trait AnyStateSpace by the same declaration with a contract; std::any::Any downcasts are the spec function dc::<S>() (unit rules RD1/RD2: `(x as &dyn Any).downcast_ref::<S>()` -> downcast_state_ref::<S>(x), `(x as &mut dyn Any).downcast_mut::<S>().unwrap()` -> downcast_state_mut_unwrap::<S>(x) whose precondition is the unwrap's panic condition); unit rules RD3/RD4 name the `&mut` unsizing coercions (`&mut state.0` -> compound_as_dyn_mut, `rng` -> rng_as_dyn); axiom ax_dc_compound: downcasting an unsized &CompoundState gives it back",
+                     "V-compound: component spaces R^n / SO(2) / SO(3) are opaque stubs (uninterpreted deterministic functions; constructors are the uninterpreted functions new_spec_*); sample_uniform_dyn of the blanket impl and all Clone impls are external; struct definitions CompoundState / SE2State / SE3State are prelude text",
                      "V-compound: Verus' semantics of `&mut *v[i]` on Vec<Box<dyn State>> (only element i changes); f64 +, *, powi(2), sqrt are uninterpreted functions of their arguments (the law is proved as equality of the SAME expression tree, hence bit for bit)",
-                     "V-compound unit preprocessing: assert_eq!(a, b, msg) -> a call whose precondition is a == b (so the layout assertions are PROVED never to fire given state_ok); #[derive(Clone)] dropped; sample_uniform is external_body; unit rule R19 (x += e -> x = x + e on f64)",
+                     "V-compound unit preprocessing: assert_eq!(a, b, msg) -> a call whose precondition is a == b (so the layout assertions are PROVED never to fire given state_ok); #[derive(Clone)] on CompoundStateSpace dropped; unit rule R19 (x += e -> x = x + e on f64), RD5 (a type annotation on `components`)",
                      "Verus 0.2026.09.13 / Z3"],
-        not_covered=["SE(2) / SE(3) newtypes equal the compound of their parts: Kani only, bounded layouts (SE(2) thorough tier; SE(3) not decided)", "sample_uniform component-wise (Box<dyn State> construction from the dyn sampler is outside the Verus subset; not executed under CBMC)", "the blanket impl of AnyStateSpace (Any downcasts) is covered by the Kani harnesses on concrete layouts only; in the Verus unit it is the trait contract"],
+        not_covered=["that the component spaces themselves (R^n, SO(2), SO(3)) satisfy their own laws is C09-C12, not C13", "AnyStateSpace::sample_uniform_dyn of the blanket impl (RngWrapper adaptor) is trusted", "SE2State / SE3State constructors and accessors (states/se2_state.rs, se3_state.rs): Kani se2_state_new_yaw_canonical only"],
     ),
 })
 for _k in ("C09", "C10", "C11", "C12", "C13"):
@@ -151,3 +152,8 @@ PROPS["C20"] = dict(
     not_covered=["the Python side of the FFI (CPython semantics of exceptions / truthiness) beyond the stub contracts", "the wasm build cannot be executed in this sandbox: oxmpl-js is verified as text only"],
 )
 PENDING.pop("C20", None)
+
+LATTICE = "bounded: lattices of special values (0, +-PI, +-PI +- 1 ulp, multiples of PI/4, antipodal / near-identical / negated quaternions, magnitudes up to 1e6, R^n for n in {1,2,3,5,6,9}, 5 compound layouts x 5 weight vectors incl. 0 and 1e-17, SE(2)/SE(3) for 6 weights) plus seeded random states; tolerances 1e-9 (symmetry, diameter), 1e-6 (identity, reference agreement, triangle, speed; 2e-4 relative for SO(3) nlerp), bit equality for component-wise laws"
+for _k in ("C09", "C10", "C11", "C12", "C13"):
+    PROPS[_k]["bounded_scenarios"] = LATTICE
+    PROPS[_k]["explanation"] += " BOUNDED stand-in (never counted as proved): the native lattice family of this property (replay/src/spaces.rs) runs the real spaces on the lattice described under coverage.bounded_checks; it is what reaches the SO(3) clauses (acos / sin) and the tolerance relations, and it attaches a concrete failing input to a violation."
